@@ -142,3 +142,55 @@ Proof. intros draws l H. unfold lorem_fill. rewrite (lorem_fill_list_free l draw
 Theorem transform_list_free : forall cfg l, forallb lorem_free l = true -> transform_list cfg l = transform_forest cfg l.
 Proof. intros cfg l H. unfold transform_list. rewrite (lorem_fill_free _ l H). reflexivity. Qed.
 
+
+(* ---------------------------------------------------------------- the rest of lorem() inside the transform pass *)
+(* the lorem test of the transform pass is made on the name AFTER implicit_tag(); implicit_tag only names a node
+   whose name is empty, and the names it gives (the generated table of parents, span, div) are no lorem headers:
+   complete sweep of the table *)
+Lemma element_map_not_lorem :
+  forallb (fun kv => match match_lorem (snd kv) with LNo => true | LYes _ _ _ => false end) GenImplicit.element_map = true.
+Proof. vm_compute. reflexivity. Qed.
+
+Lemma implicit_not_lorem : forall cfg pn, match_lorem (implicit_name_of cfg pn) = LNo.
+Proof.
+  intros cfg pn. unfold implicit_name_of.
+  match goal with |- context [assoc_str ?k GenImplicit.element_map] => destruct (assoc_str k GenImplicit.element_map) as [n|] eqn:E end.
+  - apply assoc_str_in' in E. destruct E as [k' Hin].
+    pose proof element_map_not_lorem as H. rewrite forallb_forall in H. specialize (H _ Hin). cbn [snd] in H.
+    destruct (match_lorem n); [reflexivity|discriminate].
+  - match goal with |- context [if ?b then _ else _] => destruct b end; vm_compute; reflexivity.
+Qed.
+
+(* the name the transform pass tests *)
+Definition name_after_implicit (cfg : mconfig) (pn : option (option str)) (nm : option str) (at_ : option (list aattr)) : option str :=
+  match nm, nonempty at_ with
+  | None, Some _ | Some [], Some _ => Some (implicit_name_of cfg pn)
+  | _, _ => nm
+  end.
+Theorem lorem_test_agree : forall cfg pn nm at_,
+  lorem_header (name_after_implicit cfg pn nm at_) = lorem_header nm.
+Proof.
+  intros cfg pn nm at_. unfold name_after_implicit.
+  destruct nm as [[|c x]|]; destruct (nonempty at_); try reflexivity;
+    unfold lorem_header; rewrite implicit_not_lorem; destruct (implicit_name_of cfg pn); reflexivity.
+Qed.
+
+(* a node under a lorem header becomes a TEXT node: name None -- or, repeated below the top level, the implicit tag of
+   its parent --, attributes None, the value (the paragraph the lorem pass wrote) and the children kept *)
+Theorem transform_pre_lorem : forall cfg pn top nm v rp at_ ch sc lang minw maxw,
+  lorem_header nm = LYes lang minw maxw ->
+  fst (transform_node_pre cfg pn top (ANode nm v rp at_ ch sc)) =
+  ANode (match rp with
+         | Some _ => if top then None else Some (implicit_name_of cfg pn)
+         | None => None
+         end) v rp None ch sc.
+Proof.
+  intros cfg pn top nm v rp at_ ch sc lang minw maxw H.
+  destruct nm as [[|c x]|]; try discriminate. cbn [lorem_header] in H.
+  unfold transform_node_pre. cbn [nonempty]. rewrite H. cbv zeta. cbn [nonempty fst].
+  rewrite !andb_false_r. cbn [fst].
+  match goal with |- context [opt_str_eqb ?a s_label && ?b] => destruct (opt_str_eqb a s_label && b) end; reflexivity.
+Qed.
+
+(* and a node that is not under a lorem header keeps its value in the lorem step of the transform pass: with
+   lorem_test_agree, the two passes split lorem() without overlap *)
